@@ -292,7 +292,31 @@ func TestC04(t *testing.T) {
 		w.SignQuote()
 		w.BuildCollateral()
 		// perturb the TCB Info
-		switch rapid.IntRange(0, 13).Draw(t, "perturb") {
+		switch rapid.IntRange(0, 16).Draw(t, "perturb") {
+		case 14, 15, 16:
+			// a TDX-module field of the wrong size whose beginning is exactly right (longer: the right value plus a
+			// suffix; shorter: a prefix of it): a comparison over the first bytes only would call it a match
+			field := rapid.SampledFrom([]string{"attributes", "attributes", "mask", "mrsigner"}).Draw(t, "sizedField")
+			resize := func(b []byte) []byte {
+				if rapid.Bool().Draw(t, "longer") {
+					extra := rapid.SampledFrom([]int{1, 8, 56}).Draw(t, "extra")
+					tail := make([]byte, extra)
+					if rapid.Bool().Draw(t, "tailRandom") {
+						tail = s.Bytes(extra)
+					}
+					return append(append([]byte{}, b...), tail...)
+				}
+				return append([]byte{}, b[:len(b)-rapid.SampledFrom([]int{1, len(b) / 2, len(b)}).Draw(t, "cut")]...)
+			}
+			switch field {
+			case "attributes":
+				w.TcbInfo.Attributes = resize(w.TcbInfo.Attributes)
+			case "mask":
+				w.TcbInfo.Mask = resize(w.TcbInfo.Mask)
+			default:
+				w.TcbInfo.Mrsigner = resize(w.TcbInfo.Mrsigner)
+			}
+			gen.Class("tdx-module-field-of-wrong-size:" + field)
 		case 0:
 			// replace the level list with arbitrary levels
 			n := rapid.IntRange(1, 4).Draw(t, "n")
